@@ -64,7 +64,9 @@ pub fn is_prefix(a: &Q, b: &Q) -> bool {
 
 /// How often callback `i` ran. 0,1: take-watchers of the pre-state; 2,3: flush-watchers of the pre-state;
 /// 4,5: callbacks handed to the operation under test.
-pub static mut RAN: [u8; 6] = [0; 6];
+/// (Initialisers of mutable statics are deliberately odd non-zero patterns: kani-compiler 0.68 aliases constant
+/// allocations with statics of equal initial bytes, see stubs/batcher.toml. `reset_statics` stores the start values.)
+pub static mut RAN: [u8; 6] = [0xA5, 0x5A, 0xA5, 0x5A, 0xA5, 0x17];
 
 pub fn ran(i: usize) -> u8 {
     unsafe { RAN[i] }
@@ -77,11 +79,8 @@ pub fn cb(i: usize) -> v::Callback {
 pub fn reset_statics() {
     unsafe {
         RAN = [0; 6];
-        shim::LOCKS = 0;
-        shim::LOCK_HOOK = None;
-        shim::PANIC_PLAN = 0;
-        shim::PANIC_CALLS = 0;
     }
+    shim::reset();
 }
 
 pub fn locks() -> usize {
